@@ -250,6 +250,37 @@ theorem load_persist (a : AccState) (h : WF a) : load (persist a) = some a := by
 
 /-! ### files written before permissions were stored -/
 
+theorem optMap_map' {α β γ : Type} (f : β → Option γ) (g : α → β) (k : α → γ) (l : List α)
+    (h : ∀ a ∈ l, f (g a) = some (k a)) : optMap f (l.map g) = some (l.map k) := by
+  induction l with
+  | nil => rfl
+  | cons a r ih =>
+    simp only [List.map_cons, optMap, h a (by simp), ih (fun x hx => h x (by simp [hx]))]
+
+/-- the document `persist` writes, minus the `client_properties` member, loads; identity, keys
+    and recorded identifier bytes are intact and every paired controller gets permission 1 -/
+theorem load_persist_legacy (a : AccState) (h : WF a) :
+    load { persist a with clientProperties := none } =
+      some { a with ps := { a.ps with props := a.ps.paired.map fun e => (e.1, 1) } } := by
+  obtain ⟨mac, cv, ah, priv, pub, ⟨paired, props, u2b⟩⟩ := a
+  obtain ⟨h1, h2, h3, h4, h5⟩ := h
+  simp only at h1 h2 h3 h4 h5
+  have e1 := dictOf_map_str (fun e : Uuid × Bytes => toHex e.2) paired h1
+  have e3 := dictOf_map_str (fun e : Uuid × Bytes => toHex e.2) u2b h3
+  have o1 : optMap entryOfStr (paired.map fun e => (strOfUuid e.1, toHex e.2)) = some paired :=
+    optMap_map _ _ _ (by intro x _; simp [entryOfStr, uuidOfStr_strOfUuid, ofHex_toHex])
+  have o2 : optMap legacyProp (paired.map fun e => (strOfUuid e.1, toHex e.2))
+      = some (paired.map fun e => (e.1, 1)) :=
+    optMap_map' _ _ _ _ (by intro x _; simp [legacyProp, uuidOfStr_strOfUuid])
+  have o3 : optMap entryOfStr (u2b.map fun e => (strOfUuid e.1, toHex e.2)) = some u2b :=
+    optMap_map _ _ _ (by intro x _; simp [entryOfStr, uuidOfStr_strOfUuid, ofHex_toHex])
+  have hk : (akeys (paired.map fun e => (e.1, (1 : Nat)))).Nodup := by
+    have : akeys (paired.map fun e => (e.1, (1 : Nat))) = akeys paired := by
+      simp [akeys, List.map_map, Function.comp_def]
+    rw [this]; exact h1
+  simp only [load, persist, e1, e3, o1, o2, o3, Option.getD_some, keyOfHex_toHex _ h4,
+    keyOfHex_toHex _ h5, dictOf_nodup _ h1, dictOf_nodup _ hk, dictOf_nodup _ h3]
+
 theorem akeys_foldl_aset {K V W : Type} [DecidableEq K] (l : List K) (f : K → V) (g : K → W)
     (acc1 : List (K × V)) (acc2 : List (K × W)) (h : akeys acc1 = akeys acc2) :
     akeys (l.foldl (fun acc k => aset acc k (f k)) acc1) = akeys (l.foldl (fun acc k => aset acc k (g k)) acc2) := by
